@@ -10,7 +10,8 @@ STAGES = [
     {'op': 'pool'},
 ]
 HEADS = ['flatlin', 'gaplin', 'linlin']
-STAGE_OPTS = [{'bias': False}, {'k': 1}, {'s': 2}, {'act': False}, {'bn': True, 'bias': False}, {'cout': 3}]
+STAGE_OPTS = [{'bias': False}, {'k': 1}, {'s': 2}, {'act': False}, {'bn': True, 'bias': False}, {'cout': 3},
+              {'pm': 'reflect'}, {'pm': 'replicate'}, {'pm': 'circular'}, {'p': 'same'}]
 
 
 def _valid(p):
@@ -36,6 +37,16 @@ def gen(depth, heads=HEADS, with_opts=True):
                     out.append({'cin': 3, 'size': 6, 'stages': [{'op': 'conv'}, s], 'head': h})
         out.append({'cin': 3, 'size': 6, 'stages': [{'op': 'conv'}], 'head': 'linlin', 'head_bn': True})
         out.append({'cin': 3, 'size': 6, 'stages': [{'op': 'conv', 'dw': True}, {'op': 'conv', 'k': 1}], 'head': 'linlin', 'head_bn': True})
+    return out
+
+
+def gen_twice():
+    """a conv invoked at two call sites (same / different resolution; first call on the network input or after another layer)"""
+    out = []
+    for stages in ([{'op': 'conv'}, {'op': 'twice'}], [{'op': 'conv'}, {'op': 'twice', 'pool': True}],
+                   [{'op': 'twice', 'pool': True}], [{'op': 'conv', 'cout': 3}, {'op': 'twice', 'pool': True}, {'op': 'conv', 'k': 1}]):
+        for h in ('flatlin', 'gaplin'):
+            out.append({'cin': 3, 'size': 6, 'stages': [dict(s) for s in stages], 'head': h})
     return out
 
 
